@@ -104,7 +104,7 @@ func (r *pkgRun) fail(prop, kind string, di int, op, expected, observed, model, 
 		Class: class, DefNames: names,
 		Property: prop, Kind: kind, Package: r.pkg.ID, Schema: r.sc.text, Options: r.pkg.Options,
 		Def: r.sc.env.Defs[di].Name, DefIdx: di, Env: r.envLines,
-		Op: session.Abbrev(op, 4000), Expected: session.Abbrev(expected, 2000), Observed: session.Abbrev(observed, 2000),
+		Op: session.Abbrev(op, 60000), Expected: session.Abbrev(expected, 2000), Observed: session.Abbrev(observed, 2000),
 		Model: session.Abbrev(model, 2000), Note: note,
 	})
 }
